@@ -282,6 +282,10 @@ def generate(srcdir):
     C['USER_TIMEOUT_AVAIL'] = anchored_int(user_c, r'find_available_user.*?last_pkt\s*\+\s*(\d+)\s*<\s*time', 'find_available_user timeout', 'user.c')
     C['USER_RESERVED_ADDRS'] = anchored_int(user_c, r'maxusers\s*=\s*\(1\s*<<\s*\(32\s*-\s*netbits\)\)\s*-\s*(\d+)\s*;', 'init_users reserved', 'user.c')
     C['USER_DEFAULT_FRAGSIZE_V'] = anchored_int(user_c, r'find_available_user.*?fragsize\s*=\s*(\d+)\s*;', 'find_available_user fragsize', 'user.c')
+    # C18: netmask range accepted by iodined's main()
+    iodined_c18 = strip_comments(read(srcdir, 'iodined.c'))
+    C['NETMASK_MAX'] = anchored_int(iodined_c18, r'if\s*\(\s*netmask\s*>\s*(\d+)\s*\|\|\s*netmask\s*<\s*\d+\s*\)', 'netmask range check (max)', 'iodined.c')
+    C['NETMASK_MIN'] = anchored_int(iodined_c18, r'if\s*\(\s*netmask\s*>\s*\d+\s*\|\|\s*netmask\s*<\s*(\d+)\s*\)', 'netmask range check (min)', 'iodined.c')
 
     # C13 anchors are kept local to C13: if one is missing the constants are omitted (Shell.v then
     # fails to build, which the C13 check reports) instead of failing the translator for every property
